@@ -207,9 +207,16 @@ def systematic_traces(lib_by_id, tier):
     nsteps = lambda i: len(lib_by_id[i]["steps"])
     traces = []
 
-    def chain(sessions, interleave_new=False):
+    def chain(sessions, interleave_new=False, round_robin=False):
         evs = []
-        if interleave_new:
+        if round_robin:
+            left = [nsteps(d) for d in sessions]
+            while any(left):
+                for k in range(len(sessions)):
+                    if left[k]:
+                        evs.append({"e": "step", "session": k})
+                        left[k] -= 1
+        elif interleave_new:
             heads = [1 if lib_by_id[d]["steps"][0]["s"] == "new" else 0 for d in sessions]
             for k, d in enumerate(sessions):
                 evs += [{"e": "step", "session": k}] * heads[k]
@@ -270,6 +277,7 @@ def systematic_traces(lib_by_id, tier):
         if len(m) >= 2:
             chain(m + m[-2::-1])
             chain(m, interleave_new=True)
+            chain(m, round_robin=True)
     # many unrelated networks in one process: chain k takes the k-th member of EVERY family, in
     # family order and in reverse, so that every ordered pair of families occurs (aggressor built,
     # edited and rendered somewhere before the victim) with several choices of members
@@ -282,6 +290,8 @@ def systematic_traces(lib_by_id, tier):
             chain(m[::-1])
             if k == 0:
                 chain(m, interleave_new=True)
+            if k == 1:
+                chain(m, round_robin=True)  # every session advances one step at a time
     groups = {}
     for f in sorted(fams):
         groups.setdefault(group(fams[f][0]), []).append(fams[f][-1])
